@@ -1,9 +1,199 @@
-//! c14 -- placeholder; implemented by the owning property module.
+//! c14 -- thin adapter over `sc62015_core::keyboard::KeyboardMatrix` and
+//! `sc62015_core::timer::TimerContext::tick_timers_with_keyboard`.
+//!
+//! `c14.run` takes a batch of histories; each history is executed on a fresh KeyboardMatrix + MemoryImage +
+//! TimerContext and every operation's public observations are returned.  No keyboard semantics live here:
+//! the oracle is on the Python side (vp_harness/props/c14.py) and works on the returned history.
+//!
+//! Configuration: `set_press_threshold` / `set_columns_active_high` / `set_repeat_enabled` are the crate's
+//! setters; release threshold, repeat delay and repeat interval have no setter, so they are applied the way a
+//! snapshot restore applies them: `snapshot_state()` of the fresh matrix with those three fields replaced,
+//! passed to `load_snapshot_state()`.  The thresholds the oracle uses are read back from `snapshot_state()`.
+//!
+//! Operations (arrays, first element is the verb):
+//!   ["press", code] ["release", code]        press_matrix_code / release_matrix_code
+//!   ["kol", v] ["koh", v]                    handle_write(0xF0 / 0xF1, v)
+//!   ["scan"]                                 scan_tick(mem, true)                        -> n events
+//!   ["ttick"]                                TimerContext::tick_timers_with_keyboard with the same closure
+//!                                            CoreRuntime::tick_timers_and_keyboard uses (lib.rs)
+//!   ["wfifo"]                                write_fifo_to_memory(mem, timer.kb_irq_enabled)
+//!   ["kil"]                                  handle_read(0xF2)                           -> value
+//!   ["inject", code, release]                inject_matrix_event(code, release, mem, timer.kb_irq_enabled)
+//!   ["consume"]                              consume_pending_events()
+//!   ["irq", enabled]                         TimerContext::set_keyboard_irq_enabled
+//!   ["ack"]                                  what RETI from a KEY interrupt does in CoreRuntime: clear ISR bit 2
+//!                                            and timer.key_irq_latched
+//!   ["iclr"]                                 firmware write clearing ISR bit 2 only
+use crate::util::{err, get_bool, get_u32};
+use sc62015_core::keyboard::KeyboardMatrix;
+use sc62015_core::memory::MemoryImage;
+use sc62015_core::timer::TimerContext;
 use serde_json::{json, Value};
 
 #[derive(Default)]
 pub struct State {}
 
-pub fn handle(verb: &str, _req: &Value, _st: &mut State) -> Value {
-    json!({"ok": false, "error": format!("c14.{verb} not implemented")})
+const ISR: u32 = 0xFC;
+
+fn run_case(case: &Value) -> Value {
+    let cfg = case.get("cfg").cloned().unwrap_or(json!({}));
+    let mut kb = KeyboardMatrix::new();
+    let mut mem = MemoryImage::new();
+    let mti_period = get_u32(&cfg, "mti_period", 1) as i32;
+    let mut timer = TimerContext::new(true, mti_period, 0);
+    timer.set_keyboard_irq_enabled(get_bool(&cfg, "irq_enabled", true));
+
+    kb.set_columns_active_high(get_bool(&cfg, "active_high", true));
+    {
+        let mut snap = kb.snapshot_state();
+        if let Some(v) = cfg.get("release_threshold").and_then(|v| v.as_u64()) {
+            snap.release_threshold = v as u8;
+        }
+        if let Some(v) = cfg.get("repeat_delay").and_then(|v| v.as_u64()) {
+            snap.repeat_delay = v as u8;
+        }
+        if let Some(v) = cfg.get("repeat_interval").and_then(|v| v.as_u64()) {
+            snap.repeat_interval = v as u8;
+        }
+        snap.columns_active_high = get_bool(&cfg, "active_high", true);
+        kb.load_snapshot_state(&snap);
+    }
+    if let Some(v) = cfg.get("press_threshold").and_then(|v| v.as_u64()) {
+        kb.set_press_threshold(v as u8);
+    }
+    let repeat_enabled = get_bool(&cfg, "repeat_enabled", true);
+    kb.set_repeat_enabled(repeat_enabled);
+
+    let snap = kb.snapshot_state();
+    let init = json!({
+        "kol": snap.kol, "koh": snap.koh,
+        "press_threshold": snap.press_threshold, "release_threshold": snap.release_threshold,
+        "repeat_delay": snap.repeat_delay, "repeat_interval": snap.repeat_interval,
+        "active_high": snap.columns_active_high, "capacity": snap.fifo.len(),
+        "repeat_enabled": repeat_enabled,
+        "fifo": kb.fifo_snapshot(), "isr": mem.read_internal_byte(ISR).unwrap_or(0),
+        "irq_enabled": timer.keyboard_irq_enabled(),
+        "latched": timer.key_irq_latched,
+    });
+
+    let mut cycle: u64 = 0;
+    let mut obs: Vec<Value> = Vec::new();
+    let empty: Vec<Value> = Vec::new();
+    let ops = case.get("ops").and_then(|v| v.as_array()).unwrap_or(&empty);
+    for op in ops {
+        let a = match op.as_array() {
+            Some(a) if !a.is_empty() => a,
+            _ => {
+                obs.push(json!({"error": "bad op"}));
+                continue;
+            }
+        };
+        let verb = a[0].as_str().unwrap_or("");
+        let arg = |i: usize| a.get(i).and_then(|v| v.as_u64()).unwrap_or(0);
+        let argb = |i: usize| a.get(i).map(|v| v.as_bool().unwrap_or(v.as_u64().unwrap_or(0) != 0)).unwrap_or(false);
+        let mut ret = json!(null);
+        match verb {
+            "press" => kb.press_matrix_code(arg(1) as u8, &mut mem),
+            "release" => kb.release_matrix_code(arg(1) as u8, &mut mem),
+            "kol" => {
+                kb.handle_write(0xF0, arg(1) as u8, &mut mem);
+            }
+            "koh" => {
+                kb.handle_write(0xF1, arg(1) as u8, &mut mem);
+            }
+            "scan" => {
+                let n = kb.scan_tick(&mut mem, true);
+                ret = json!({"n": n});
+            }
+            "ttick" => {
+                cycle += 1;
+                let kb_irq_enabled = timer.kb_irq_enabled;
+                let kbr = &mut kb;
+                let (mti, _sti, n, _stats) = timer.tick_timers_with_keyboard(
+                    &mut mem,
+                    cycle,
+                    |m| {
+                        // Same closure as CoreRuntime::tick_timers_and_keyboard (sc62015/core/src/lib.rs).
+                        let events = kbr.scan_tick(m, true);
+                        let fifo_pending = kbr.fifo_len() > 0;
+                        if events > 0 || (kb_irq_enabled && fifo_pending) {
+                            kbr.write_fifo_to_memory(m, kb_irq_enabled);
+                        }
+                        (
+                            events,
+                            events > 0 || (kb_irq_enabled && fifo_pending),
+                            Some(kbr.telemetry()),
+                        )
+                    },
+                    None,
+                    None,
+                );
+                ret = json!({"n": n, "mti": mti});
+            }
+            "wfifo" => {
+                let en = timer.kb_irq_enabled;
+                kb.write_fifo_to_memory(&mut mem, en);
+            }
+            "kil" => {
+                let v = kb.handle_read(0xF2, &mut mem);
+                ret = json!({"kil": v});
+            }
+            "inject" => {
+                let en = timer.kb_irq_enabled;
+                let n = kb.inject_matrix_event(arg(1) as u8, argb(2), &mut mem, en);
+                ret = json!({"n": n});
+            }
+            "consume" => kb.consume_pending_events(),
+            "irq" => timer.set_keyboard_irq_enabled(argb(1)),
+            "ack" => {
+                let isr = mem.read_internal_byte(ISR).unwrap_or(0);
+                mem.write_internal_byte(ISR, isr & !0x04);
+                timer.key_irq_latched = false;
+            }
+            "iclr" => {
+                let isr = mem.read_internal_byte(ISR).unwrap_or(0);
+                mem.write_internal_byte(ISR, isr & !0x04);
+            }
+            _ => {
+                obs.push(json!({"error": format!("unknown op {verb}")}));
+                continue;
+            }
+        }
+        obs.push(json!({
+            "ret": ret,
+            "fifo": kb.fifo_snapshot(),
+            "isr": mem.read_internal_byte(ISR).unwrap_or(0),
+            "irq_enabled": timer.keyboard_irq_enabled(),
+            "latched": timer.key_irq_latched,
+        }));
+    }
+    json!({"init": init, "obs": obs})
+}
+
+pub fn handle(verb: &str, req: &Value, _st: &mut State) -> Value {
+    match verb {
+        "run" => {
+            let empty: Vec<Value> = Vec::new();
+            let cases = req.get("cases").and_then(|v| v.as_array()).unwrap_or(&empty);
+            let mut results: Vec<Value> = Vec::with_capacity(cases.len());
+            for c in cases {
+                let r = std::panic::catch_unwind(std::panic::AssertUnwindSafe(|| run_case(c)));
+                match r {
+                    Ok(v) => results.push(v),
+                    Err(e) => {
+                        let msg = if let Some(s) = e.downcast_ref::<&str>() {
+                            s.to_string()
+                        } else if let Some(s) = e.downcast_ref::<String>() {
+                            s.clone()
+                        } else {
+                            "panic".to_string()
+                        };
+                        results.push(json!({"panic": msg}));
+                    }
+                }
+            }
+            json!({"ok": true, "results": results})
+        }
+        _ => err(format!("unknown c14 verb {verb}")),
+    }
 }
